@@ -311,7 +311,15 @@ def xxh(ctx):
                 vg == "same" and vb == "witness", "good=%s bad=%s" % (vg, vb))
 
 
-ALL = {"xxh": xxh, "signedoff": signedoff, "reqalloc": reqalloc, "fieldfit": fieldfit, "stalefield": stalefield, "hidden": hidden, "region_args": region_args, "widen": widen, "progress": progress, "lazyinit": lazyinit, "lanes": lanes, "atomic": atomic, "feasible": feasible, "endian": endian, "units": units, "alloc": alloc, "status": status, "ownership": ownership, "cursor": cursor, "arrays": arrays,
+def lenext(ctx):
+    from .rules import lenext as le
+    c = _sub()
+    ne, nd = le.check(c, ["src/controls.c"])
+    ctx.control("R35.length-extension finds the control loops", (ne, nd) == (2, 2), "%d emit, %d read" % (ne, nd))
+    _expect(ctx, "R35.length-extension", c, ["lenext_bad", "lenext_read_bad"], ["lenext_good", "lenext_read_good"])
+
+
+ALL = {"lenext": lenext, "xxh": xxh, "signedoff": signedoff, "reqalloc": reqalloc, "fieldfit": fieldfit, "stalefield": stalefield, "hidden": hidden, "region_args": region_args, "widen": widen, "progress": progress, "lazyinit": lazyinit, "lanes": lanes, "atomic": atomic, "feasible": feasible, "endian": endian, "units": units, "alloc": alloc, "status": status, "ownership": ownership, "cursor": cursor, "arrays": arrays,
        "recursion": recursion, "narrowing": narrowing, "skeleton": skeleton, "must_pass": must_pass}
 
 
